@@ -345,6 +345,11 @@ class RandInfoBuilder(ModelVisitor,RandIF):
         for f in e.arr.field_l:
             self.process_fieldref(f)
 
+    def visit_expr_array_product(self, e):
+        # Likewise for the product: refer to the elements the array has now
+        for f in e.arr.field_l:
+            self.process_fieldref(f)
+
     def visit_expr_fieldref(self, e):
         # If the field is already referenced by an existing randset
         # that is not this one, we need to merge the sets
